@@ -319,25 +319,38 @@ func (fc *FnCtx) typeInv(st *State, c string, t types.Type) {
 
 // typeInvB: like typeInv, with an explicit bound on the age of the references inside c.
 func (fc *FnCtx) typeInvB(st *State, c string, t types.Type, bound string) {
+	if f := fc.typeInvFormula(c, t, bound); f != "true" {
+		if fc.g.ti.sortOf(t) == sStr {
+			fc.q.assert(f)
+		} else {
+			fc.q.assert(implies(st.reach, f))
+		}
+	}
+}
+
+// typeInvFormula: the Go type invariant of term c of type t, references not younger than bound.
+func (fc *FnCtx) typeInvFormula(c string, t types.Type, bound string) string {
 	switch fc.g.ti.sortOf(t) {
 	case sInt:
 		if lo, hi, ok := intRange(t); ok {
-			fc.q.assert(implies(st.reach, fmt.Sprintf("(and (<= %s %s) (<= %s %s))", lo, c, c, hi)))
+			return fmt.Sprintf("(and (<= %s %s) (<= %s %s))", lo, c, c, hi)
 		}
 	case sSlice:
-		fc.q.assert(implies(st.reach, fmt.Sprintf("(and (<= 0 (slen %s)) (<= (slen %s) (scap %s)) (<= (rbase (sarr %s)) %s) (<= 0 (rbase (sarr %s))) (<= 0 (roff (sarr %s))) (=> (= (rbase (sarr %s)) 0) (and (= (scap %s) 0) (= (roff (sarr %s)) 0))))", c, c, c, c, bound, c, c, c, c, c)))
+		return fmt.Sprintf("(and (<= 0 (slen %s)) (<= (slen %s) (scap %s)) (<= (rbase (sarr %s)) %s) (<= 0 (rbase (sarr %s))) (<= 0 (roff (sarr %s))) (=> (= (rbase (sarr %s)) 0) (and (= (scap %s) 0) (= (roff (sarr %s)) 0))))", c, c, c, c, bound, c, c, c, c, c)
 	case sRef:
-		fc.q.assert(implies(st.reach, fmt.Sprintf("(and (<= 0 (rbase %s)) (<= (rbase %s) %s) (<= 0 (roff %s)) (=> (= (rbase %s) 0) (= (roff %s) 0)))", c, c, bound, c, c, c)))
+		f := fmt.Sprintf("(and (<= 0 (rbase %s)) (<= (rbase %s) %s) (<= 0 (roff %s)) (=> (= (rbase %s) 0) (= (roff %s) 0)))", c, c, bound, c, c, c)
 		if pt, ok := t.Underlying().(*types.Pointer); ok {
 			if rt := fc.g.rootTypeConstraint(c, pt.Elem()); rt != "" {
-				fc.q.assert(implies(and(st.reach, not(eq(c, "nilref"))), rt))
+				f = and(f, implies(not(eq(c, "nilref")), rt))
 			}
 		}
+		return f
 	case sIface:
-		fc.q.assert(implies(st.reach, fmt.Sprintf("(and (<= 0 (itag %s)) (<= 0 (rbase (iref %s))) (<= (rbase (iref %s)) %s) (=> (= (itag %s) 0) (= %s %s)))", c, c, c, bound, c, c, zeroOf(sIface))))
+		return fmt.Sprintf("(and (<= 0 (itag %s)) (<= 0 (rbase (iref %s))) (<= (rbase (iref %s)) %s) (=> (= (itag %s) 0) (= %s %s)))", c, c, c, bound, c, c, zeroOf(sIface))
 	case sStr:
-		fc.q.assert(fmt.Sprintf("(and (>= (strlen %s) 0) (= (= (strlen %s) 0) (= %s lit_empty)))", c, c, c))
+		return fmt.Sprintf("(and (>= (strlen %s) 0) (= (= (strlen %s) 0) (= %s lit_empty)))", c, c, c)
 	}
+	return "true"
 }
 
 // ---------- heap access helpers (shared with the contract evaluator) ----------
